@@ -31,7 +31,7 @@ CONSTANTS SK,        \* stream key -> [inst |-> "counter"|"updown"|"ocounter"|"o
           Signs,     \* subset of {-1, 0, 1}: the value classes offered
           MaxN,      \* measurements per stream
           MaxSteps,
-          Variant    \* "ok" | deliberately wrong mechanisms TLC must find: "dropneg" | "clampdelta" | "resetobs" | "zeroskip"
+          Variant    \* "ok" | deliberately wrong mechanisms TLC must find: "dropneg" | "clampdelta" | "resetobs" | "zeroobs"; "zeroskip" is equivalent
 VARIABLES st, steps, act
 vars == <<st, steps, act>>
 
@@ -45,14 +45,15 @@ IAdd(im, sk, rd, s, v) ==
   ELSE [im EXCEPT !.m = [r \in DOMAIN rd |-> [@[r] EXCEPT ![s] = @ + v]]]
 IOut(im, sk, rd, r, app) ==
   [s \in DOMAIN sk |->
-     LET raw == IF IsObs(sk, s) THEN (IF rd[r] = "delta" THEN app[s] - im.rp[r][s] ELSE app[s]) ELSE im.m[r][s]
+     LET raw == IF IsObs(sk, s) THEN (IF rd[r] = "delta" THEN (IF Variant = "zeroobs" /\ app[s] = 0 THEN 0 ELSE app[s] - im.rp[r][s]) ELSE app[s])
+                ELSE im.m[r][s]
      IN IF Variant = "clampdelta" /\ rd[r] = "delta" /\ Mono(sk, s) /\ raw < 0 THEN 0
         ELSE IF Variant = "resetobs" /\ rd[r] = "delta" /\ IsObs(sk, s) /\ Mono(sk, s) /\ raw < 0 THEN app[s]   \* "counter reset"
         ELSE raw]
 IAfter(im, sk, rd, r, app) ==
   IF rd[r] # "delta" THEN im
   ELSE [im EXCEPT !.m[r] = [s \in DOMAIN sk |-> 0],
-                  !.rp[r] = [s \in DOMAIN sk |-> IF IsObs(sk, s) THEN app[s] ELSE @[s]]]
+                  !.rp[r] = [s \in DOMAIN sk |-> IF IsObs(sk, s) THEN app[s] ELSE @[s]]]   \* (zeroobs: 0 = forgotten, the same number)
 
 (* ------------------------------------------------------------------ exhaustive exploration + edge export *)
 Streams == DOMAIN SK
@@ -64,7 +65,15 @@ Add(s, c) ==
   /\ st.n[s] < MaxN /\ steps < MaxSteps - 1
   /\ LET v == c * Pow4(st.n[s]) IN
      /\ st' = [mo |-> MAdd(st.mo, s, v), im |-> IAdd(st.im, SK, RD, s, v), n |-> [st.n EXCEPT ![s] = @ + 1]]
-     /\ act' = [op |-> "Add", s |-> s, c |-> c, v |-> v]
+     /\ act' = [op |-> "Add", s |-> s, c |-> c, v |-> v, back |-> FALSE]
+  /\ steps' = steps + 1
+(* the running total returns to exactly zero (a queue length that drains, a correction that cancels everything): *)
+(* the one value the signed digits cannot produce; a zero TOTAL is not a zero INCREMENT                           *)
+Back(s) ==
+  /\ st.n[s] < MaxN /\ steps < MaxSteps - 1 /\ st.mo.tot[s] # 0
+  /\ LET v == 0 - st.mo.tot[s] IN
+     /\ st' = [mo |-> MAdd(st.mo, s, v), im |-> IAdd(st.im, SK, RD, s, v), n |-> [st.n EXCEPT ![s] = @ + 1]]
+     /\ act' = [op |-> "Add", s |-> s, c |-> 0, v |-> v, back |-> TRUE]
   /\ steps' = steps + 1
 Collect(r) ==
   /\ steps < MaxSteps
@@ -74,7 +83,7 @@ Collect(r) ==
              impl |-> IOut(st.im, SK, RD, r, st.mo.tot),       \* the mechanism's answer
              nd |-> NoDecrease(st.mo, SK), floor |-> Floor(st.mo, RD, r)]
   /\ steps' = steps + 1
-Next == (\E s \in Streams, c \in Signs : Add(s, c)) \/ (\E r \in Readers : Collect(r))
+Next == (\E s \in Streams, c \in Signs : Add(s, c)) \/ (\E s \in Streams : Back(s)) \/ (\E r \in Readers : Collect(r))
 Spec == Init /\ [][Next]_vars
 
 View == <<st, steps>>
